@@ -207,3 +207,11 @@ Example C14_whole_hypotheses_met :
     ParseRelabel.SDone [Passes.CBytes [19; 3; 96; 0]; Passes.CBytes [19; 1; 32; 0]; Passes.CBytes [19; 2; 64; 0];
                         Passes.CBytes [147; 1; 48; 0]; Passes.CBytes [99; 0; 0; 0]] [] [].
 Proof. vm_compute. repeat split; try reflexivity. eexists. repeat split; reflexivity. Qed.
+
+(* ---- the model is a FUNCTION of the program and the options, and so is the code it models: the effect summary regenerated from asm.py
+   passes summary_ok (no module-level object written by anything reachable from assemble(), no mutable default, no set iteration order
+   consumed; Proofs/Effects.v noninterference) -- a memo table or cache that outlives a call makes a pure model unfaithful *)
+From BB Require Gen.Effects Proofs.Effects Proofs.EffectsOk.
+Theorem C14_assemble_is_a_function_of_its_inputs : Proofs.Effects.summary_ok Gen.Effects.summary = true.
+Proof. exact Proofs.EffectsOk.summary_ok_holds. Qed.
+Print Assumptions C14_assemble_is_a_function_of_its_inputs.
